@@ -30,6 +30,14 @@ def arrays_for(case, dtype=np.float64):
         elif p == "target01":
             n = int(np.prod(s, dtype=int))
             out.append(np.array([(k * 2 + 1) % 3 != 0 for k in range(n)], dtype=dtype).reshape(s))
+        elif p.startswith("scales:"):
+            # generic values; every slice along dim d sits on its own scale (offset 0 or 900): per-slice results are unchanged
+            # by a per-slice shift, but anything computed across slices (a global maximum) is not
+            d = int(p.split(":")[1]) % max(len(s), 1)
+            a = values.generic(s, salt=7 * i)
+            idx = np.indices(s) if len(s) else np.zeros((0,))
+            par = sum(idx[k] for k in range(len(s)) if k != d) % 2 if len(s) else 0
+            out.append(np.asarray(a + 900.0 * par, dtype=dtype))
         elif p == "logits":
             out.append(np.asarray(values.generic(s, salt=7 * i) * 2.0, dtype=dtype))
         elif p == "var":
@@ -330,6 +338,7 @@ def cases(tier, what="forward"):
             for o in ("softmax", "log_softmax"):
                 add(o, [s], {"dim": d}, pats=["logits"])
                 if len(s) <= 2: add(o, [s], {"dim": d}, pats=["logits"], form="layer")
+                if fw and len(s) >= 2: add(o, [s], {"dim": d}, pats=[f"scales:{d}"])      # slices on very different scales
     # --- losses
     reds = ["none", "sum", "mean", "default"]
     for s in (lattice.shapes(2) + [(2, 3, 2), (3, 1, 2)]) if tier == "quick" else lattice.shapes(3):
